@@ -140,6 +140,8 @@ pub struct Parser {
 
     last_char: char,
     pub(crate) macros: HashMap<usize, String>,
+    macro_nesting: usize,
+    macro_budget: usize,
     pub parse_string: String,
     pub macro_dcs: String,
     pub bs_is_ctrl_char: bool,
@@ -162,6 +164,8 @@ impl Default for Parser {
             parse_string: String::new(),
             macro_dcs: String::new(),
             macros: HashMap::new(),
+            macro_nesting: 0,
+            macro_budget: 0,
             last_char: '\0',
             hyper_links: Vec::new(),
             bs_is_ctrl_char: false,
@@ -1449,6 +1453,11 @@ impl BufferParser for Parser {
     }
 }
 
+/// Macros may invoke macros (even themselves): limit the nesting depth and the number of
+/// characters one invocation can expand to.
+const MAX_MACRO_NESTING: usize = 16;
+const MAX_MACRO_EXPANSION: usize = 0x1_0000;
+
 impl Parser {
     fn invoke_macro_by_id(&mut self, buf: &mut Buffer, current_layer: usize, caret: &mut Caret, id: i32) {
         let m = if let Some(m) = self.macros.get(&(id as usize)) {
@@ -1456,11 +1465,24 @@ impl Parser {
         } else {
             return;
         };
+        if self.macro_nesting == 0 {
+            self.macro_budget = MAX_MACRO_EXPANSION;
+        }
+        if self.macro_nesting >= MAX_MACRO_NESTING {
+            log::error!("Macro nesting too deep, macro {} not invoked.", id);
+            return;
+        }
+        self.macro_nesting += 1;
         for ch in m.chars() {
+            if self.macro_budget == 0 {
+                break;
+            }
+            self.macro_budget -= 1;
             if let Err(err) = self.print_char(buf, current_layer, caret, ch) {
                 log::error!("Error during macro invocation: {}", err);
             }
         }
+        self.macro_nesting -= 1;
     }
 
     fn execute_aps_command(&self, _buf: &mut Buffer, _caret: &mut Caret) {
